@@ -547,9 +547,14 @@ def r5_3(ctx):
     else:
       var = why[1] if why[0] == "flag" else "overload"
       if var not in flags:
-        raise AnalysisError(
-            f"_extract_function_properties has no `{var} = True` arm "
-            f"(arms: {sorted(flags)})")
+        # reader_flags() understood every arm of the chain (it raises
+        # otherwise), so the arm is definitely missing
+        ctx.bad(f"decorator:@{sp}", PRINTER, d["line"],
+                f"printer writes @{sp} for the `{var}` flag but "
+                f"_extract_function_properties has no `{var} = True` arm (arms: "
+                f"{sorted(flags)}): it is read back as an ordinary decorator",
+                {"flag": var, "reader_arms": sorted(flags)})
+        continue
       targets = flags[var]["targets"]
       if d["typing"]:
         ok = any(t == f"typing.{sp}" or
@@ -1371,6 +1376,353 @@ def r5_12(ctx):
   _neg_slice_scan(ctx, files, "q")
 
 
+# -- R5.13 class body vs. the ` ...` suffix -----------------------------------------
+
+# three-valued formulas over "atoms" (truthiness of an expression the method
+# does not compute itself, e.g. node.classes): True / False / None (unknown)
+def _f_eval(f, asg):
+  k = f[0]
+  if k == "const":
+    return f[1]
+  if k == "atom":
+    return asg.get(f[1])
+  if k == "unk":
+    return None
+  if k == "not":
+    v = _f_eval(f[1], asg)
+    return None if v is None else not v
+  vs = [_f_eval(x, asg) for x in f[1]]
+  if k == "or":
+    return True if any(v is True for v in vs) else (None if any(v is None for v in vs) else False)
+  return False if any(v is False for v in vs) else (None if any(v is None for v in vs) else True)
+
+
+def _f_atoms(f, out):
+  if f[0] == "atom":
+    out.add(f[1])
+    out.add(f[1].removesuffix(" is not None"))
+  elif f[0] == "unk":
+    out |= f[1]
+  elif f[0] == "not":
+    _f_atoms(f[1], out)
+  elif f[0] in ("or", "and"):
+    for x in f[1]:
+      _f_atoms(x, out)
+  return out
+
+
+_UNK = ("unk", frozenset())
+
+
+def _f_leaves(fs):
+  out, todo = [], list(fs)
+  while todo:
+    f = todo.pop()
+    if f[0] in ("atom", "unk", "const"):
+      out.append(f)
+    elif f[0] == "not":
+      todo.append(f[1])
+    else:
+      todo.extend(f[1])
+  return out
+
+
+def _unk(e, env):
+  """Unknown value; remembers the atoms `e` depends on (to tell whether an
+  opaque test can be correlated with the class members at all)."""
+  about = set()
+  for n in ast.walk(e):
+    if isinstance(n, ast.Name):
+      about.add("local:" + n.id)
+      if n.id in env:
+        _f_atoms(env[n.id], about)
+    elif isinstance(n, ast.Attribute) and dotted(n):
+      about.add(dotted(n))
+  return ("unk", frozenset(about))
+
+
+def _nonempty(e, env):
+  """Formula for 'the sequence `e` evaluates to is non-empty' (env: local -> formula)."""
+  if isinstance(e, (ast.List, ast.Tuple)):
+    if any(isinstance(x, ast.Starred) for x in e.elts):
+      return _unk(e, env)
+    return ("const", bool(e.elts))
+  if isinstance(e, (ast.ListComp, ast.GeneratorExp)):
+    g = e.generators
+    # later generators may only split an earlier element into its lines
+    # (every printed member has >= 1 line)
+    inner_ok = all(isinstance(x.iter, ast.Call) and isinstance(x.iter.func, ast.Attribute)
+                   and x.iter.func.attr == "splitlines" and dotted(x.iter.func.value) in
+                   {dotted(y.target) for y in g[:i + 1]} for i, x in enumerate(g[1:]))
+    if any(x.ifs for x in g) or not inner_ok:
+      return _unk(e, env)
+    return _nonempty(g[0].iter, env)
+  if isinstance(e, ast.BinOp) and isinstance(e.op, ast.Add):
+    return ("or", [_nonempty(e.left, env), _nonempty(e.right, env)])
+  if isinstance(e, ast.Call) and not e.keywords:
+    d = dotted(e.func)
+    if d in ("list", "tuple", "sorted") and len(e.args) == 1:
+      return _nonempty(e.args[0], env)
+    # sum((m.splitlines() for m in X), []): every printed member has >= 1 line
+    if d == "sum" and len(e.args) == 2 and isinstance(e.args[1], ast.List) and not e.args[1].elts:
+      return _nonempty(e.args[0], env)
+    return _unk(e, env)
+  if isinstance(e, ast.Name):
+    return env[e.id] if e.id in env else _unk(e, env)
+  if isinstance(e, ast.Attribute) and dotted(e):
+    return ("atom", dotted(e))
+  return _unk(e, env)
+
+
+def _truth(t, env):
+  """Formula for the truth value of test `t`."""
+  if isinstance(t, ast.BoolOp):
+    return ("and" if isinstance(t.op, ast.And) else "or", [_truth(v, env) for v in t.values])
+  if isinstance(t, ast.UnaryOp) and isinstance(t.op, ast.Not):
+    return ("not", _truth(t.operand, env))
+  if isinstance(t, ast.Compare) and len(t.ops) == 1 and isinstance(t.ops[0], (ast.Is, ast.IsNot)) \
+      and isinstance(t.comparators[0], ast.Constant) and t.comparators[0].value is None and dotted(t.left):
+    a = ("atom", f"{dotted(t.left)} is not None")
+    return a if isinstance(t.ops[0], ast.IsNot) else ("not", a)
+  if isinstance(t, ast.Constant):
+    return ("const", bool(t.value))
+  if isinstance(t, ast.Call) and dotted(t.func) in ("len", "bool") and len(t.args) == 1 and not t.keywords:
+    return _nonempty(t.args[0], env)
+  if isinstance(t, ast.Compare) and len(t.ops) == 1:
+    a, op, b = t.left, t.ops[0], t.comparators[0]
+    if isinstance(a, ast.Call) and dotted(a.func) == "len" and len(a.args) == 1 and isinstance(b, ast.Constant):
+      f = _nonempty(a.args[0], env)
+      key = (type(op).__name__, b.value)
+      if key in (("Eq", 0), ("Lt", 1), ("LtE", 0)):
+        return ("not", f)
+      if key in (("NotEq", 0), ("Gt", 0), ("GtE", 1)):
+        return f
+    if isinstance(b, (ast.List, ast.Tuple)) and not b.elts and isinstance(op, (ast.Eq, ast.NotEq)):
+      f = _nonempty(a, env)
+      return ("not", f) if isinstance(op, ast.Eq) else f
+    return _unk(t, env)
+  if isinstance(t, (ast.Name, ast.Attribute, ast.List, ast.Tuple, ast.ListComp, ast.BinOp)):
+    return _nonempty(t, env)
+  return _unk(t, env)
+
+
+def _names_stored(node):
+  return {n.id for n in ast.walk(node) if isinstance(n, ast.Name) and not isinstance(n.ctx, ast.Load)}
+
+
+def _is_ellipsis_suffix(st):
+  """`<header>[-1] += " ..."`-style statement -> name of the header list, else None."""
+  if isinstance(st, ast.AugAssign) and isinstance(st.op, ast.Add) and isinstance(st.target, ast.Subscript) \
+      and isinstance(st.target.value, ast.Name) and (_const_str(st.value) or "").strip() == "...":
+    return st.target.value.id
+  return None
+
+
+def _class_paths(block, state):
+  """Symbolic paths through a Visit method: yields (return node, state).
+
+  state = {"conds": [(formula, polarity)], "env": {local: formula}, "terms":
+  {local: [(term text, formula)]} for locals bound to a `+` chain, "dots":
+  set of header lists that got the " ..." suffix}.  Loops are not unrolled:
+  every local they bind becomes unknown.
+  """
+  if not block:
+    yield None, state
+    return
+  st, rest = block[0], block[1:]
+  if isinstance(st, ast.If):
+    f = _truth(st.test, state["env"])
+    for pol, sub in ((True, st.body), (False, st.orelse)):
+      s2 = {"conds": state["conds"] + [(f, pol)], "env": dict(state["env"]),
+            "terms": dict(state["terms"]), "dots": set(state["dots"])}
+      for ret, s3 in _class_paths(sub, s2):
+        if ret is None:
+          yield from _class_paths(rest, s3)
+        else:
+          yield ret, s3
+    return
+  if isinstance(st, ast.Return):
+    yield st, state
+    return
+  if isinstance(st, ast.Raise):
+    return
+  if isinstance(st, (ast.For, ast.While)):
+    if any(_is_ellipsis_suffix(n) for n in ast.walk(st)):
+      raise AnalysisError("the ' ...' suffix is added inside a loop")
+    for n in _names_stored(st):
+      state["env"][n] = _UNK
+      state["terms"].pop(n, None)
+    for c in calls_in(st):
+      if isinstance(c.func, ast.Attribute) and isinstance(c.func.value, ast.Name):
+        state["env"][c.func.value.id] = _UNK
+    yield from _class_paths(rest, state)
+    return
+  if isinstance(st, (ast.Assign, ast.AnnAssign)) and st.value is not None:
+    tg = st.targets if isinstance(st, ast.Assign) else [st.target]
+    f = _nonempty(st.value, state["env"])
+    terms = []
+    def flat(e):
+      if isinstance(e, ast.BinOp) and isinstance(e.op, ast.Add):
+        flat(e.left)
+        flat(e.right)
+      elif isinstance(e, ast.Name) and e.id in state["terms"]:
+        terms.extend(state["terms"][e.id])
+      else:
+        terms.append((src(e), _nonempty(e, state["env"])))
+    flat(st.value)
+    for t in tg:
+      if isinstance(t, ast.Name):
+        state["env"][t.id] = f
+        if isinstance(st.value, ast.BinOp) and isinstance(st.value.op, ast.Add):
+          state["terms"][t.id] = terms
+        else:
+          state["terms"].pop(t.id, None)
+      else:
+        for n in _names_stored(t):
+          state["env"][n] = _UNK
+          state["terms"].pop(n, None)
+  elif isinstance(st, ast.AugAssign):
+    h = _is_ellipsis_suffix(st)
+    if h:
+      state["dots"].add(h)
+    elif isinstance(st.target, ast.Name):
+      if isinstance(st.op, ast.Add):
+        old = state["env"].get(st.target.id, _UNK)
+        state["env"][st.target.id] = ("or", [old, _nonempty(st.value, state["env"])])
+      else:
+        state["env"][st.target.id] = _UNK
+      state["terms"].pop(st.target.id, None)
+  elif isinstance(st, ast.Expr):
+    for c in calls_in(st):
+      if isinstance(c.func, ast.Attribute) and isinstance(c.func.value, ast.Name) \
+          and c.func.value.id in state["env"]:
+        state["env"][c.func.value.id] = _UNK
+        state["terms"].pop(c.func.value.id, None)
+  elif not isinstance(st, (ast.Pass, ast.Assert, ast.AnnAssign)):
+    raise AnalysisError(f"class-body analysis: unsupported statement {type(st).__name__}")
+  yield from _class_paths(rest, state)
+
+
+@rule("R5.13", "C05", floor=5)
+def r5_13(ctx):
+  """`class X: ...` is printed exactly when no line is emitted into the class body.
+
+  VisitClass returns "\n".join(<decorators> + <header> + <body segments>);
+  the header gets the " ..." suffix on some paths.  For every path and every
+  truth assignment of the member fields (node.classes, node.methods,
+  node.constants, node.slots) consistent with the path condition: the suffix
+  is present iff every body segment is empty.  Suffix with a non-empty segment
+  prints `class X: ...` followed by an indented block (a parse error); no
+  suffix with an empty body prints `class X:` with nothing under it.
+  """
+  import itertools
+  pmod = get_module(ctx, PRINTER)
+  fn = pmod.func("PrintVisitor.VisitClass")
+  headers = {h for h in (_is_ellipsis_suffix(n) for n in walk_no_nested(fn)) if h}
+  if len(headers) != 1:
+    raise AnalysisError(
+        f"VisitClass: expected one header list that gets the ' ...' suffix, found {sorted(headers)}")
+  header = headers.pop()
+  init = {"conds": [], "env": {}, "terms": {}, "dots": set()}
+  node = fn.args.args[1].arg
+  witnesses, bare_empty, undecided, members, segs, n_paths = [], [], set(), set(), set(), 0
+  for ret, st in _class_paths(fn.body, init):
+    if ret is None or ret.value is None:
+      raise AnalysisError("VisitClass: a path ends without returning text")
+    joins = [c for c in calls_in(ret.value) if isinstance(c.func, ast.Attribute) and c.func.attr == "join"
+             and _const_str(c.func.value) == "\n" and len(c.args) == 1]
+    if not joins:
+      continue      # not the class form (functional TypedDict)
+    arg = joins[0].args[0]
+    if isinstance(arg, ast.Name) and arg.id in st["terms"]:
+      terms = st["terms"][arg.id]
+    else:
+      tmp = {"conds": [], "env": st["env"], "terms": dict(st["terms"]), "dots": set()}
+      list(_class_paths([ast.Assign(targets=[ast.Name(id="<lines>", ctx=ast.Store())], value=arg)], tmp))
+      terms = tmp["terms"].get("<lines>") or [(src(arg), _nonempty(arg, st["env"]))]
+    names = [t for t, _ in terms]
+    if names.count(header) != 1:
+      raise AnalysisError(f"VisitClass: header list `{header}` is not a term of the joined lines {names}")
+    body = terms[names.index(header) + 1:]
+    if not body:
+      raise AnalysisError("VisitClass: nothing is emitted after the class header")
+    n_paths += 1
+    segs |= {t for t, _ in body}
+    dots = header in st["dots"]
+    about_body = set()
+    for t, f in body:
+      _f_atoms(f, about_body)
+      if t.isidentifier():
+        about_body.add("local:" + t)
+    forms = [f for f, _ in st["conds"]] + [f for _, f in body]
+    atoms = sorted({a[1] for a in _f_leaves(forms) if a[0] == "atom"})
+    members |= {a for a in atoms if a.startswith(node + ".")}
+    for bits in itertools.product((False, True), repeat=len(atoms)):
+      asg = dict(zip(atoms, bits))
+      if any(_f_eval(f, asg) is (not pol) for f, pol in st["conds"]):
+        continue    # infeasible
+      # a test the analysis cannot evaluate is taken to be independent of the
+      # members unless it talks about them (then nothing on this path is decided)
+      fuzzy = any(_f_eval(f, asg) is None and any(u[1] & about_body for u in _f_leaves([f]) if u[0] == "unk")
+                  for f, _ in st["conds"])
+      vals = [(t, _f_eval(f, asg)) for t, f in body]
+      if dots:
+        full = [t for t, v in vals if v is True]
+        if full and not fuzzy:
+          witnesses.append((asg, full))
+        elif any(v is not False for _, v in vals):
+          undecided.add("the ' ...' suffix is added")
+      elif all(v is False for _, v in vals) and not fuzzy:
+        bare_empty.append(asg)
+      elif not any(v is True for _, v in vals):
+        undecided.add("no ' ...' suffix is added")
+  if n_paths == 0:
+    raise AnalysisError("VisitClass: no path returns the joined class lines")
+  if not members:
+    raise AnalysisError("VisitClass: the class body does not depend on any field of the node")
+  # attribute each clash to the members present in its smallest witness
+  blame = {}
+  for asg, full in sorted(witnesses, key=lambda w: sum(w[0].values())):
+    present = [a for a, v in asg.items() if v and a in members] or ["<always>"]
+    if not any(a in blame for a in present):
+      for a in present:
+        blame[a] = (asg, full)
+  if undecided and not blame and not bare_empty:
+    raise AnalysisError(f"VisitClass: cannot decide whether the body is empty where {sorted(undecided)}")
+  field = lambda a: a[len(node) + 1:].removesuffix(" is not None") if a != "<always>" else a
+  for a in sorted(members | set(blame)):
+    if a in blame:
+      asg, full = blame[a]
+      ctx.bad(f"VisitClass:ellipsis-vs-body:{field(a)}", PRINTER, fn.lineno,
+              f"the header gets the ' ...' suffix although {full} is non-empty when {asg}: `class X: ...` is "
+              "followed by an indented body, which the stub parser rejects",
+              {"member": a, "witness": asg, "non_empty": full})
+    else:
+      ctx.ok(f"VisitClass:ellipsis-vs-body:{field(a)}", PRINTER, fn.lineno,
+             {"member": a, "paths": n_paths, "header": header, "segments": sorted(segs)})
+  ctx.check(not bare_empty, "VisitClass:no-ellipsis-implies-body", PRINTER, fn.lineno,
+            f"no ' ...' suffix although every body segment is empty (e.g. when {bare_empty[:1]}): "
+            "`class X:` is printed with nothing under it",
+            {"segments": sorted(segs), "paths": n_paths, "witness": bare_empty[:1]})
+
+
+_VISITCLASS_TAIL = (
+    "    if node.classes or node.methods or node.constants or slots:\n"
+    "      # We have multiple methods, and every method has multiple signatures\n"
+    "      # (i.e., the method string will have multiple lines). Combine this into\n"
+    "      # an array that contains all the lines, then indent the result.\n"
+    "      class_lines = sum((m.splitlines() for m in node.classes), [])\n"
+    "      classes = [self.INDENT + m for m in class_lines]\n"
+    "      constants = [self.INDENT + m for m in node.constants]\n"
+    "      method_lines = sum((m.splitlines() for m in node.methods), [])\n"
+    "      methods = [self.INDENT + m for m in method_lines]\n"
+    "    else:\n"
+    "      header[-1] += \" ...\"\n"
+    "      constants = []\n"
+    "      classes = []\n"
+    "      methods = []\n"
+    "    lines = decorators + header + slots + classes + constants + methods\n")
+
 VARIANTS = [
     # R5.1
     {"name": "drop-VisitLateType", "rule": "R5.1", "file": PRINTER, "expect": "fire",
@@ -1575,4 +1927,51 @@ VARIANTS = [
     {"name": "cell-names-guard-dropped", "rule": "R5.12", "file": "pytype/state.py", "expect": "fire",
      "old": "    elif freevars:\n      cell_names = f_code.localsplus[: -len(freevars)]\n    else:\n      cell_names = f_code.localsplus",
      "new": "    else:\n      cell_names = f_code.localsplus[: -len(freevars)]"},
+    # R5.3: a flag arm the reader lost is a violation
+    {"name": "parser-loses-final-arm", "rule": "R5.3", "file": PARSER, "expect": "fire",
+     "old": "      elif self.defs.matches_type(d.name, \"typing.final\"):\n        final = True\n",
+     "new": ""},
+    # R5.13
+    {"name": "seeded-C05-m1", "rule": "R5.13", "patch": "seeded/C05-m1/patch.diff", "expect": "fire"},
+    {"name": "slots-forgotten-in-emptiness-test", "rule": "R5.13", "file": PRINTER, "expect": "fire",
+     "old": "    if node.classes or node.methods or node.constants or slots:\n",
+     "new": "    if node.classes or node.methods or node.constants:\n"},
+    {"name": "emptiness-test-mentions-field-that-emits-no-line", "rule": "R5.13", "file": PRINTER,
+     "expect": "fire",
+     "old": "    if node.classes or node.methods or node.constants or slots:\n",
+     "new": "    if node.classes or node.methods or node.constants or slots or node.decorators:\n"},
+    {"name": "emptiness-test-requires-methods", "rule": "R5.13", "file": PRINTER,
+     "expect": "fire",
+     "old": "    if node.classes or node.methods or node.constants or slots:\n",
+     "new": "    if (node.classes or slots or node.constants) and node.methods:\n"},
+    {"name": "twin-body-built-unconditionally-then-tested", "rule": "R5.13", "file": PRINTER,
+     "expect": "silent", "old": _VISITCLASS_TAIL,
+     "new": "    class_lines = sum((m.splitlines() for m in node.classes), [])\n"
+            "    classes = [self.INDENT + m for m in class_lines]\n"
+            "    constants = [self.INDENT + m for m in node.constants]\n"
+            "    method_lines = sum((m.splitlines() for m in node.methods), [])\n"
+            "    methods = [self.INDENT + m for m in method_lines]\n"
+            "    if not (slots or classes or constants or methods):\n"
+            "      header[-1] += \" ...\"\n"
+            "    lines = decorators + header + slots + classes + constants + methods\n"},
+    {"name": "twin-body-collected-in-one-list", "rule": "R5.13", "file": PRINTER,
+     "expect": "silent", "old": _VISITCLASS_TAIL,
+     "new": "    class_lines = sum((m.splitlines() for m in node.classes), [])\n"
+            "    method_lines = sum((m.splitlines() for m in node.methods), [])\n"
+            "    body = slots + [self.INDENT + m for m in class_lines]\n"
+            "    body += [self.INDENT + m for m in node.constants]\n"
+            "    body = body + [self.INDENT + m for m in method_lines]\n"
+            "    if len(body) == 0:\n"
+            "      header[-1] += \" ...\"\n"
+            "    lines = decorators + header + body\n"},
+    {"name": "twin-emptiness-test-negated-arms-swapped", "rule": "R5.13", "file": PRINTER,
+     "expect": "silent", "old": _VISITCLASS_TAIL,
+     "new": "    if not (slots or node.constants or node.methods or node.classes):\n"
+            "      header[-1] += \" ...\"\n"
+            "      constants = classes = methods = []\n"
+            "    else:\n"
+            "      classes = [self.INDENT + m for c in node.classes for m in c.splitlines()]\n"
+            "      constants = [self.INDENT + m for m in node.constants]\n"
+            "      methods = [self.INDENT + m for f in node.methods for m in f.splitlines()]\n"
+            "    lines = decorators + header + slots + classes + constants + methods\n"},
 ]
